@@ -25,7 +25,8 @@ def mk_msg(kind, c, uid):
         # a NEW message that spells out PossDupFlag=N and still carries a stale MsgSeqNum (forwarded / template message)
         return FIXMessage("D", {11: f"n{uid}", FTag.PossDupFlag: "N", FTag.MsgSeqNum: 40})
     if kind == "app_grp":
-        return FIXMessage("D", {11: f"g{uid}", 453: [{448: "p", 447: "D", 452: 1}]})
+        # repeating group + non-ASCII text (utf-8 on the wire)
+        return FIXMessage("D", {11: f"g{uid}", 453: [{448: "p", 447: "D", 452: 1}], 58: "Z\u00fcrich \u6771\u4eac"})
     if kind == "hb":
         return FIXMessage(FMsg.HEARTBEAT)
     if kind == "logon":
